@@ -39,6 +39,14 @@ class Worker(threading.Thread):
 
     def run(self):
         while True:
+            if DEADLINE[0] and time.time() > DEADLINE[0]:
+                # time budget of the whole check used up: remaining jobs are not started
+                try:
+                    while True:
+                        SKIPPED.append(self.jobs.get_nowait())
+                except queue.Empty:
+                    pass
+                break
             try:
                 job = self.jobs.get_nowait()
             except queue.Empty:
@@ -72,6 +80,10 @@ class Worker(threading.Thread):
                 self.proc.wait(timeout=10)
             except Exception:
                 self.proc.kill()
+
+
+DEADLINE = [0]
+SKIPPED = []
 
 
 def run_jobs(jobs):
